@@ -19,7 +19,7 @@
 EXTENDS LimitMaps
 CONSTANTS Configs,      \* set of records [kind, n, T, mode, blo, bhi, tab, couple, starts]
                         \*   kind in {"metropolis","gibbs","pca"}, n in {1,2}, T in {1,2,4},
-                        \*   mode in {"free","box","nonneg"}, tab: energy table name, starts: set of start tuples
+                        \*   mode in {"free","box","nonneg","boxnn"}, tab: energy table name, starts: set of start tuples
           WLo, WHi,     \* lattice window on which the energy tables are given
           Tables,       \* Tables[name][v - WLo + 1] = additive energy of coordinate value v (multiples of 4)
           Outside,      \* energy of a coordinate outside the window
@@ -34,7 +34,9 @@ Abs(v) == IF v < 0 THEN -v ELSE v
 E1(c, v) == IF v >= WLo /\ v <= WHi THEN Tables[c.tab][v - WLo + 1] ELSE Outside
 Energy(c, x) == IF c.n = 1 THEN E1(c, x[1]) ELSE E1(c, x[1]) + E1(c, x[2]) + c.couple * Abs(x[1] - x[2])
 \* proposal post-processing per coordinate
+\* "boxnn": boundaries (blo < 0) AND the non-negativity switch: the interval in force is [max(blo, 0), bhi], mirrored at both of ITS ends
 Prop(c, t) == CASE c.mode = "free" -> t [] c.mode = "box" -> Reflect(c.blo, c.bhi, t) [] c.mode = "nonneg" -> Fold(t)
+                [] c.mode = "boxnn" -> Reflect(IF c.blo < 0 THEN 0 ELSE c.blo, c.bhi, t)
 
 \* decision with uniform mid-point index ui:  accept iff uphill/level, or u < 2^-(dE/T)
 AcceptU(c, dE, ui) == IF dE <= 0 THEN TRUE
@@ -94,6 +96,7 @@ ProbsBelong == /\ Len(probs) = Len(chain)                                  \* C0
 WorkConsistent == pold = Energy(cf, work)                                  \* the "old" value of the ratio is the current point's
 InsideLimits(x) == \A j \in 1..cf.n : CASE cf.mode = "free" -> TRUE [] cf.mode = "box" -> x[j] >= cf.blo /\ x[j] <= cf.bhi
                                          [] cf.mode = "nonneg" -> x[j] >= 0
+                                         [] cf.mode = "boxnn" -> x[j] >= 0 /\ x[j] >= cf.blo /\ x[j] <= cf.bhi
 SamplesInside == \A i \in 1..Len(chain) : InsideLimits(chain[i])            \* C04 (starts are chosen inside)
 EvalsInside == \A i \in 1..Len(evals) : InsideLimits(evals[i])              \* C04
 \* the indices whose stored probability is maximal (C03: the mode is one of these samples)
